@@ -306,6 +306,11 @@ func (c05) fix(c *core.C, s, source string) {
 		} else if nu := normDep(&u); nu != n1 {
 			c.Failf("Parse(%q): MarshalControl gives %q, which UnmarshalControl reads as a different structure:\n first:  %s\n second: %s", s, mc, n1, nu)
 		}
+		// the value decoded from its own rendering: d.UnmarshalControl(d.String()) must leave d as it was
+		self := *d1
+		if err := self.UnmarshalControl(mc); err != nil || normDep(&self) != n1 {
+			c.Failf("Parse(%q): decoding the value's own rendering %q back into the value gives a different structure (err %v):\n before: %s\n after:  %s", s, mc, err, n1, normDep(&self))
+		}
 	}
 	nontrivial := false
 	for _, rel := range d1.Relations {
